@@ -1,15 +1,101 @@
-"""C11 cases: radix output and round trips."""
+"""C11 cases: radix output and round trips.
+
+Harness bin `c11` (harness/src/bin/c11.rs): the three printing methods and print-then-parse round trips through every
+parsing entry point (from_str_radix, parse_str_radix, parse_bytes, FromStr, from_radix_be, from_radix_le).
+
+Input classes (all general; see the functions below):
+  * every radix 2..=256 x every standard configuration x signed/unsigned x every op (`_gen_main`), with extra
+    repetitions for the radices that own a code path (byte copy 256, exact slicing 2/4/16, inexact slicing
+    8/32/64/128, decimal);
+  * values built from whole conversion chunks (`chunked`): chunk base = radix, radix^k, the largest radix power fitting
+    half a digit / a whole digit; chunks drawn from {0, 1, base-1, radix^j, radix^j-1, random} -> interior zero
+    chunks, chunks with leading zero digits, a top chunk of every length;
+  * r^k and r^k-1 for every k up to the capacity (`digit_count_boundaries`, all four digit types);
+  * wide configurations (`wide`): 512, 4096 and the four 8192-bit instantiations (one per digit type), few requests
+    each, every code path x every op, dense/extreme operands;
+  * out-of-range radices (`bad_radix`): 0, 1, 37 (strings), 257, and radices that become valid when truncated to the
+    digit type (258, 266, 65546, 2^32-246, ...) x values zero / small / negative / MIN / random x every op, including
+    the composed round trips (the property demands a panic for each of them).
+"""
 from .common import *
 from . import widthsweep as _ws
 
 HARNESS_BINS_THOROUGH = ["widths"]
-HARNESS_BIN = "c10"
+HARNESS_BIN = "c11"
+
+# set to True only to triage: classes on which the unchanged crate was seen to disagree with the SPEC (none so far)
+ENABLE_UNTRIAGED = False
+
+POW2_RADICES = (2, 4, 8, 16, 32, 64, 128, 256)
+# radices that own a code path or a constant of their own: repeated in the quick tier
+HOT_RADICES = (8, 32, 64, 128, 256, 10, 16, 2)
+STR_RT_OPS = ("roundtrip_str", "roundtrip_parse_bytes", "roundtrip_parse_str")
+
+
+def ndigits(v, r):
+    k = 0
+    while v:
+        v //= r
+        k += 1
+    return k
+
+
+def chunk_base(rng, w, r):
+    """a chunk base the conversion uses or could use: r itself, the largest power of r fitting half a digit (what
+    `radix_base_half` returns), fitting a whole digit (`radix_base`), or an arbitrary small power"""
+    c = rng.randrange(4)
+    if c == 0:
+        return r, 1
+    if c == 3:
+        k = rng.randrange(1, 9)
+        return r ** k, k
+    lim = (1 << (w // 2)) if c == 1 else (1 << w)
+    b, k = r, 1
+    while b * r < lim:
+        b *= r
+        k += 1
+    return b, k
+
+
+def chunked(rng, w, n, r):
+    """sum of c_i * base^i with structured chunks; the number of chunks is uniform up to the capacity"""
+    W = w * n
+    M = 1 << W
+    base, p = chunk_base(rng, w, r)
+    cap = ndigits(M - 1, base)
+    cnt = rng.randrange(1, cap + 1) if rng.random() < 0.6 else cap
+    kind = rng.randrange(3)          # 0: mixed, 1: mostly zero chunks, 2: mostly maximal chunks
+    v = 0
+    for i in range(cnt):
+        c = rng.randrange(8)
+        if kind == 1 and c >= 3:
+            d = 0
+        elif kind == 2 and c >= 3:
+            d = base - 1
+        elif c == 0:
+            d = 0
+        elif c == 1:
+            d = 1
+        elif c == 2:
+            d = base - 1
+        elif c == 3:
+            d = r ** rng.randrange(p)                    # 0..010..0 inside the chunk
+        elif c == 4:
+            d = r ** rng.randrange(1, p + 1) - 1         # leading zero digits, then maximal digits
+        elif c == 5:
+            d = rng.randrange(r)                         # a single low digit: p-1 leading zero digits in the chunk
+        else:
+            d = rng.randrange(base)
+        v += d * base ** i
+    if cnt and v < base ** (cnt - 1):
+        v += rng.choice([1, r - 1, base - 1]) * base ** (cnt - 1)     # top chunk non-zero
+    return "chunked", v % M
 
 
 def out_value(rng, w, n, r):
     W = w * n
     M = 1 << W
-    c = rng.randrange(8)
+    c = rng.randrange(12)          # 7..11: the general value classes of gen/common.py
     if c == 0:
         k = rng.randrange(1, 40)
         return "r^k", (r ** k) % M
@@ -40,39 +126,100 @@ def out_value(rng, w, n, r):
                 d = rng.choice([0, rng.randrange(1 << w)])
             v |= d << (w * i)
         return "radix-power-digits", v % M
+    if c in (4, 5):
+        return chunked(rng, w, n, r)
+    if c == 6:
+        # r^k (+-1, -r^j) for k anywhere up to (and one beyond) the capacity of the type
+        cap = ndigits(M - 1, r)
+        k = rng.randrange(1, cap + 2)
+        z = r ** k + rng.choice([0, -1, 1, -(r ** rng.randrange(k))])
+        return "r^k-any", z % M
     return value(rng, w, n)
+
+
+def _ops_for(rng, s, cfg, r, reps, extra):
+    """the requests of one (configuration, signedness, radix)"""
+    w, n = wn(cfg)
+    for _ in range(reps):
+        t, a = out_value(rng, w, n, r)
+        yield f"to_radix_le {s}{cfg} {r} {hx(a)}", t
+        t, a = out_value(rng, w, n, r)
+        yield f"to_radix_be {s}{cfg} {r} {hx(a)}", t
+        yield f"roundtrip_be {s}{cfg} {r} {hx(a)}", t
+        yield f"roundtrip_le {s}{cfg} {r} {hx(a)}", t
+        if extra and rng.random() < 0.12:
+            t, a = out_value(rng, w, n, r)
+            yield f"{rng.choice(['roundtrip_be_le', 'roundtrip_le_be'])} {s}{cfg} {r} {hx(a)}", t
+        if r <= 36:
+            t, a = out_value(rng, w, n, r)
+            yield f"to_str_radix {s}{cfg} {r} {hx(a)}", t
+            yield f"roundtrip_str {s}{cfg} {r} {hx(a)}", t
+            if extra:
+                # the other string-parsing entry points composed with printing
+                t, a = out_value(rng, w, n, r)
+                yield f"{rng.choice(STR_RT_OPS[1:])} {s}{cfg} {r} {hx(a)}", t
+
+
+# a radix subset for configurations with many digits (thorough tier): every power of two, the extremes, decimal,
+# and a few with/without a small chunk base
+MANY_DIGIT_RADICES = POW2_RADICES + (3, 5, 7, 10, 11, 15, 17, 35, 36, 37, 100, 127, 129, 200, 255)
 
 
 def _gen_main(rng, tier):
     reps = 4 if tier == "thorough" else 1
     for cfg in cfgs(tier):
         w, n = wn(cfg)
-        if n > 20:
+        if n > 20 and tier != "thorough":
+            continue            # quick tier: the many-digit configurations are covered by `wide`
+        for s in "ui":
+            radices = range(2, 257) if n <= 20 else MANY_DIGIT_RADICES
+            for r in radices:
+                k = reps if n <= 20 else 1
+                if tier != "thorough" and r in HOT_RADICES:
+                    k = 3
+                yield from _ops_for(rng, s, cfg, r, k, True)
+            # FromStr (decimal only)
+            for _ in range(6 if n <= 20 else 2):
+                t, a = out_value(rng, w, n, 10)
+                yield f"roundtrip_from_str {s}{cfg} {hx(a)}", t
+
+
+BAD_RADICES = (0, 1, 257, 258, 266, 512 + 16, 1 << 16, (1 << 16) + 10, (1 << 16) + 256, 1 << 31,
+               (1 << 32) - 246, (1 << 32) - 1)
+# out of range for the string methods only
+BAD_STR_RADICES = (37, 38, 64, 100, 255, 256)
+RADIX_OPS = ("to_radix_be", "to_radix_le", "roundtrip_be", "roundtrip_le", "roundtrip_be_le", "roundtrip_le_be")
+STR_OPS = ("to_str_radix",) + STR_RT_OPS
+
+
+def bad_radix(rng, tier):
+    """the methods must panic for EVERY out-of-range radix and every value: zero (the range assertion comes before the
+    zero shortcut), negative values (the sign is printed after the magnitude), radices whose truncation to the digit
+    type is a valid radix, and also through the composed round trips"""
+    for cfg in cfgs(tier) + [c for c in ("64x128", "8x1024") if c not in cfgs(tier)]:
+        w, n = wn(cfg)
+        W = w * n
+        M = 1 << W
+        if n > 20 and tier != "thorough" and cfg not in ("64x128", "8x1024", "8x64"):
             continue
         for s in "ui":
-            for r in range(2, 257):
-                for _ in range(reps):
-                    t, a = out_value(rng, w, n, r)
-                    yield f"to_radix_le {s}{cfg} {r} {hx(a)}", t
-                    t, a = out_value(rng, w, n, r)
-                    yield f"to_radix_be {s}{cfg} {r} {hx(a)}", t
-                    yield f"roundtrip_be {s}{cfg} {r} {hx(a)}", t
-                    yield f"roundtrip_le {s}{cfg} {r} {hx(a)}", t
-                    if r <= 36:
-                        t, a = out_value(rng, w, n, r)
-                        yield f"to_str_radix {s}{cfg} {r} {hx(a)}", t
-                        yield f"roundtrip_str {s}{cfg} {r} {hx(a)}", t
-            for r in (0, 1, 37, 257):
-                yield f"to_str_radix {s}{cfg} {r} 5", "bad-radix"
-                yield f"to_radix_be {s}{cfg} {r} 5", "bad-radix"
-                yield f"to_radix_le {s}{cfg} {r} 5", "bad-radix"
+            vals = [0, 5, M - 1, M >> 1, rng.randrange(M), value(rng, w, n)[1]]
+            for r in BAD_RADICES:
+                a = rng.choice(vals)
+                for op in ("to_str_radix", "to_radix_be", "to_radix_le", rng.choice(RADIX_OPS[2:] + STR_RT_OPS)):
+                    yield f"{op} {s}{cfg} {r} {hx(a)}", "bad-radix"
+                yield f"{rng.choice(RADIX_OPS + STR_OPS)} {s}{cfg} {r} 0", "bad-radix-zero"
+            for r in BAD_STR_RADICES:
+                a = rng.choice(vals)
+                yield f"to_str_radix {s}{cfg} {r} {hx(a)}", "bad-radix"
+                yield f"{rng.choice(STR_OPS)} {s}{cfg} {r} {hx(rng.choice(vals))}", "bad-radix"
 
 
 def digit_count_boundaries(rng, tier):
     """r^k and r^k - 1 for EVERY k below the capacity (the numerals 100..0 and zz..z of every length):
     where a digit-count estimate or a chunk boundary can be off by one.  One wide and one odd-width
-    configuration (added after seeded change C12-r4m1)."""
-    for cfg in ["64x16", "8x17"] + (["16x20", "32x10", "8x40"] if tier == "thorough" else []):
+    configuration (added after seeded change C12-r4m1), plus one narrow one of the other two digit types."""
+    for cfg in ["64x16", "8x17", "16x5", "32x3"] + (["16x20", "32x10", "8x40"] if tier == "thorough" else []):
         w, n = wn(cfg)
         M = 1 << (w * n)
         for r in list(range(2, 37)) + [37, 100, 128, 255, 256]:
@@ -88,12 +235,85 @@ def digit_count_boundaries(rng, tier):
                 p *= r
 
 
+# ---------------------------------------------------------------------------------------------- wide configurations
+
+# (configuration, requests in the quick tier): 512 and 4096 bits, then 8192 bits on every digit type.  The Lean
+# model costs ~0.5 s per division-path request at 8x1024, ~0.04 s at 64x128: few requests, every one chosen.
+WIDE = [("8x64", 330), ("64x64", 150), ("64x128", 48), ("32x256", 30), ("16x512", 20), ("8x1024", 10)]
+WIDE_DIV_RADICES = (10, 3, 36, 255, 7, 37, 100, 35, 251, 6)
+WIDE_OPS = ("to_radix_le", "roundtrip_be", "to_str_radix", "roundtrip_le", "to_radix_be", "roundtrip_str",
+            "roundtrip_parse_bytes")
+
+
+def wide_values(rng, cfg, r):
+    w, n = wn(cfg)
+    W = w * n
+    M = 1 << W
+    B = 1 << w
+    cap = ndigits(M - 1, r)
+    yield "allones", M - 1
+    yield "dense", sum(rng.randrange(B - B // 16, B) << (w * i) for i in range(n))
+    yield chunked(rng, w, n, r)
+    yield "r^cap-1", r ** (cap - 1) if rng.random() < 0.5 else r ** (cap - 1) - 1       # longest numerals 10..0 / zz..z
+    yield "smin", M >> 1
+    yield "random", rng.randrange(M)
+    yield "smax", (M >> 1) - 1
+    yield chunked(rng, w, n, r)
+    yield "alt-digits", sum((B - 1 if i % 2 else 0) << (w * i) for i in range(n))
+    yield "top-digit-only", rng.randrange(1, B) << (w * (n - 1))
+    yield value(rng, w, n)
+    yield "neg-small", M - rng.randrange(1, r * r)
+    yield "short", rng.randrange(1 << (w * rng.randrange(1, n)))
+
+
+def wide(rng, tier):
+    for cfg, cnt in WIDE:
+        if tier == "thorough":
+            cnt *= 4
+        w, n = wn(cfg)
+        # every power of two (copy / exact / inexact slicing, whatever the digit type makes of it) interleaved
+        # with division-path radices
+        radices = [x for pr in zip((256, 8, 16, 2, 64, 4, 32, 128), WIDE_DIV_RADICES) for x in pr]
+        radices += [rng.randrange(2, 37), rng.randrange(38, 256), WIDE_DIV_RADICES[8], WIDE_DIV_RADICES[9]]
+        vals = {}
+        for i in range(cnt):
+            r = radices[i % len(radices)] if i < 3 * len(radices) else rng.randrange(2, 257)
+            op = WIDE_OPS[i % len(WIDE_OPS)]
+            if r > 36 and op in STR_OPS:
+                op = "roundtrip_le" if op != "to_str_radix" else "to_radix_le"
+            if r not in vals:
+                vals[r] = list(wide_values(rng, cfg, r))
+            # 13 value classes, 20 radices, 7 ops: pairwise coprime cycle lengths, every combination comes up
+            t, a = vals[r][i % len(vals[r])]
+            s = "ui"[(i // len(WIDE_OPS) + i) & 1]
+            yield f"{op} {s}{cfg} {r} {hx(a)}", "wide/" + t
+        # the remaining string entry points; at 8192 bits one request each (u: FromStr, i: parse_str_radix)
+        for s in "ui":
+            t, a = chunked(rng, w, n, 10)
+            if s == "u" or n <= 64 or tier == "thorough":
+                yield f"roundtrip_from_str {s}{cfg} {hx(a)}", "wide/" + t
+            if s == "i" or n <= 64 or tier == "thorough":
+                yield f"roundtrip_parse_str {s}{cfg} {rng.choice([10, 16, 36, 3])} {hx((1 << (w * n)) - 1 - a)}", "wide/" + t
+
+
+def sweep_print(rng):
+    """thorough tier, every u8 digit count 1..=1024 (bin `widths` knows `to_str_radix` only): the bit-slicing radices,
+    which gen/widthsweep.py:print_ does not use (one cheap request per width)"""
+    for n in _ws.ns(rng):
+        r = (2, 4, 16, 8, 32)[n % 5]
+        t, a = chunked(rng, 8, n, r)
+        yield f"to_str_radix u8x{n} {r} {hx(a)}", "width-sweep"
+
+
 def ROUTE(line):
-    return _ws.route(line, "c10")
+    return _ws.route(line, "c11")
 
 
 def gen(rng, tier):
     yield from _gen_main(rng, tier)
+    yield from bad_radix(rng, tier)
     yield from digit_count_boundaries(rng, tier)
+    yield from wide(rng, tier)
     if tier == "thorough":
         yield from _ws.print_(rng)
+        yield from sweep_print(rng)
